@@ -22,7 +22,17 @@ pub fn gen_case3(prop: &str, seed: u64, thorough: bool, rng: &mut Rng) -> Case {
             cfg.strategy = draw_strategy(rng, &crate::profiles::CLASSES_ALL);
             let mut g = Gen { rng: Rng::new(rng.next_u64()), next_uid: 1 };
             let n = rng.range(3, 14) as usize;
-            let ops = gen_history(&mut g, &cfg, n, rng.chance(1, 2), true, true);
+            let mut ops = gen_history(&mut g, &cfg, n, rng.chance(1, 2), true, true);
+            // an explicit collection right after some merges: a failed merge publication followed
+            // by GC is where in-memory and on-storage metadata can disagree
+            let mut k = 0;
+            while k < ops.len() {
+                if matches!(ops[k], Op::Merge { .. } | Op::MergeWait) && rng.chance(1, 3) {
+                    ops.insert(k + 1, Op::Gc);
+                    k += 1;
+                }
+                k += 1;
+            }
             Case { seed, cfg, ops }
         }
         _ => crate::profiles4::gen_case4(prop, seed, thorough, rng),
